@@ -94,6 +94,8 @@ type Obl struct {
 	IsCover bool
 }
 
+var onlyFilter string
+
 type storeDef struct{ base, idx, val string }
 
 type Eng struct {
@@ -123,13 +125,18 @@ type Eng struct {
 	allocRefs map[string]bool
 	wantModels bool
 	mathTerms [][3]string
+	valueFieldTypes map[string]bool
+	wfFrontier string
+	regionElemType map[string]types.Type
+	regionKeySort map[string]string
+	pendingNonNil map[string]bool
 }
 
 func NewEng(ld *Loaded, spec *SpecFile) *Eng {
 	e := &Eng{ld: ld, spec: spec, sc: NewScript(),
 		regionSort: map[string]string{}, subIdx: map[string]int{}, typeIDs: map[string]int{},
 		strLits: map[string]string{}, oblNames: map[string]int{}, notes: map[string]bool{},
-		maxInline: 4, modCache: map[*ssa.Function]map[string]bool{}, storeDefs: map[string]storeDef{}, allocRefs: map[string]bool{}}
+		maxInline: 4, modCache: map[*ssa.Function]map[string]bool{}, storeDefs: map[string]storeDef{}, allocRefs: map[string]bool{}, regionElemType: map[string]types.Type{}, regionKeySort: map[string]string{}}
 	e.sc.prelude.WriteString(slicePrelude)
 	if spec != nil {
 		e.declDatatypes()
@@ -151,8 +158,50 @@ func (e *Eng) regInit(name, sortName string) string {
 	}
 	e.regionSort[name] = sortName
 	c := "R0_" + sanitize(name)
-	e.sc.declConst(c, sortName)
+	if !e.sc.declared[c] {
+		e.sc.declConst(c, sortName)
+		fr0 := "R0_" + sanitize(frRegion)
+		if name != frRegion {
+			fr0 = e.regInit(frRegion, "Int")
+		}
+		if ax := e.regionWF(name, c, fr0); ax != "" {
+			e.sc.declare(c+"_wf", "(assert "+ax+")")
+		}
+	}
 	return c
+}
+
+// regionWF: every value stored in a typed heap region is within its Go type's range
+// (the frontier-dependent parts of well-formedness are assumed at each load instead).
+func (e *Eng) regionWF(name, c, frTerm string) string {
+	e.wfFrontier = frTerm
+	defer func() { e.wfFrontier = "" }()
+	t, ok := e.regionElemType[name]
+	if !ok || t == nil {
+		return ""
+	}
+	depth := 1
+	if strings.HasPrefix(name, "E.") || strings.HasPrefix(name, "MV.") {
+		depth = 2
+	}
+	var term, pat, vars string
+	if depth == 1 {
+		term = "(select " + c + " p)"
+		vars = "((p Int))"
+	} else if strings.HasPrefix(name, "MV.") {
+		ks := e.regionKeySort[name]
+		term = "(select (select " + c + " p) k)"
+		vars = "((p Int) (k " + ks + "))"
+	} else {
+		term = "(select (select " + c + " p) k)"
+		vars = "((p Int) (k Int))"
+	}
+	pat = term
+	w := e.wfTerm(nil, term, t, 1)
+	if w == "true" {
+		return ""
+	}
+	return fmt.Sprintf("(forall %s (! %s :pattern (%s)))", vars, w, pat)
 }
 
 func (e *Eng) get(st *State, name, sortName string) string {
@@ -174,6 +223,9 @@ func (e *Eng) havocReg(st *State, name string) {
 		return
 	}
 	st.reg[name] = e.sc.havoc("hv_"+name, sortName)
+	if ax := e.regionWF(name, st.reg[name], e.get(st, frRegion, "Int")); ax != "" {
+		e.sc.assume(ax, "well-formed values in havocked region")
+	}
 }
 
 // setStore: region := store(region, idx, val), remembered structurally so that
@@ -211,20 +263,28 @@ func (e *Eng) selReg(st *State, name, sortName, idx string) string {
 func (e *Eng) fieldRegion(st types.Type, idx int) (string, string) {
 	s := structOf(st)
 	f := s.Field(idx)
-	return "F." + e.structName(st) + "." + f.Name(), "(Array Int " + e.sortOf(f.Type()) + ")"
+	n := "F." + e.structName(st) + "." + f.Name()
+	e.regionElemType[n] = f.Type()
+	return n, "(Array Int " + e.sortOf(f.Type()) + ")"
 }
 
 func (e *Eng) elemRegion(et types.Type) (string, string) {
-	return "E." + typeKey(et.Underlying()), "(Array Int (Array Int " + e.sortOf(et) + "))"
+	n := "E." + typeKey(et.Underlying())
+	e.regionElemType[n] = et
+	return n, "(Array Int (Array Int " + e.sortOf(et) + "))"
 }
 
 func (e *Eng) cellRegion(t types.Type) (string, string) {
-	return "C." + typeKey(t), "(Array Int " + e.sortOf(t) + ")"
+	n := "C." + typeKey(t)
+	e.regionElemType[n] = t
+	return n, "(Array Int " + e.sortOf(t) + ")"
 }
 
 func (e *Eng) mapRegions(mt *types.Map) (has, hs, val, vs string) {
 	k := typeKey(mt.Key()) + "." + typeKey(mt.Elem())
 	ks := e.sortOf(mt.Key())
+	e.regionElemType["MV."+k] = mt.Elem()
+	e.regionKeySort["MV."+k] = ks
 	return "MH." + k, "(Array Int (Array " + ks + " Bool))", "MV." + k, "(Array Int (Array " + ks + " " + e.sortOf(mt.Elem()) + "))"
 }
 
@@ -245,7 +305,11 @@ func (e *Eng) subPtr(st types.Type, idx int, base string) string {
 			e.errf("too many sub-object kinds")
 		}
 	}
-	return fmt.Sprintf("(- (- 0 (* 64 %s)) %d)", base, k)
+	// hidden behind an uninterpreted function with a definitional axiom so that patterns
+	// mentioning sub-object fields match modulo equality (cf. idxAt)
+	fn := fmt.Sprintf("sub%d", k)
+	e.sc.declare(fn, fmt.Sprintf("(declare-fun %s (Int) Int)\n(assert (forall ((p Int)) (! (= (%s p) (- (- 0 (* 64 p)) %d)) :pattern ((%s p)))))", fn, fn, k, fn))
+	return "(" + fn + " " + base + ")"
 }
 
 func (e *Eng) typeID(t types.Type) string {
@@ -319,12 +383,39 @@ func (e *Eng) wfTerm(st *State, t string, typ types.Type, depth int) string {
 			return and(sx(">=", sx("strlen", t), "0"), sx("<=", sx("strlen", t), "9223372036854775807"))
 		}
 	case *types.Pointer, *types.Map, *types.Chan:
+		if st == nil {
+			up := "true"
+			if e.wfFrontier != "" {
+				up = sx("<", t, e.wfFrontier)
+			}
+			if _, isMap := u.(*types.Map); isMap {
+				return and(sx("<=", "0", t), up)
+			}
+			if pu, isPtr := u.(*types.Pointer); isPtr && !e.usedAsValueField(pu.Elem()) {
+				return and(sx("<=", "0", t), up)
+			}
+			return up
+		}
 		fr := e.get(st, frRegion, "Int")
 		if _, isMap := u.(*types.Map); isMap {
 			return and(sx("<=", "0", t), sx("<", t, fr))
 		}
+		if pu, isPtr := u.(*types.Pointer); isPtr && !e.usedAsValueField(pu.Elem()) {
+			// objects of this type are never sub-objects of another struct: their addresses are allocation references
+			return and(sx("<=", "0", t), sx("<", t, fr))
+		}
 		return sx("<", t, fr)
 	case *types.Slice:
+		if st == nil {
+			return and(sx("<=", "0", sx("s_off", t)), sx("<=", "0", sx("s_len", t)), sx("<=", sx("s_len", t), sx("s_cap", t)), sx("<=", sx("s_cap", t), "9223372036854775807"),
+				sx("<=", "0", sx("s_arr", t)), implies(eq(sx("s_arr", t), "0"), and(eq(sx("s_cap", t), "0"), eq(sx("s_off", t), "0"))),
+				func() string {
+					if e.wfFrontier != "" {
+						return sx("<", sx("s_arr", t), e.wfFrontier)
+					}
+					return "true"
+				}())
+		}
 		fr := e.get(st, frRegion, "Int")
 		return and(sx("<=", "0", sx("s_off", t)), sx("<=", "0", sx("s_len", t)), sx("<=", sx("s_len", t), sx("s_cap", t)), sx("<=", sx("s_cap", t), "9223372036854775807"),
 			sx("<=", "0", sx("s_arr", t)), sx("<", sx("s_arr", t), fr),
@@ -554,6 +645,9 @@ func (e *Eng) oblige(kind, key string, props []string, pos token.Pos, guard, phi
 		name = fmt.Sprintf("%s#%d", name, n)
 	}
 	check := e.propsMatch(props)
+	if onlyFilter != "" && !strings.Contains(name, onlyFilter) {
+		check = false
+	}
 	if phi == "true" || guard == "false" {
 		// trivially discharged; still recorded
 	}
@@ -572,11 +666,14 @@ func (e *Eng) oblige(kind, key string, props []string, pos token.Pos, guard, phi
 		wm = modelIDs[o.ID]
 		check = check && wm
 	}
-	e.sc.obligation(o.ID, guard, phi, check, wm)
+	// obligations at the end of a path (lock invariants at Unlock, postconditions, loop steps) are not
+	// assumed afterwards: nothing on that path follows, and their quantifiers would only burden later queries
+	assumeAfter := !(kind == "lockinv" || kind == "post" || kind == "loop-step" || kind == "lemma")
+	e.sc.obligation(o.ID, guard, phi, check, wm, assumeAfter)
 }
 
 func (e *Eng) cover(name string, props []string, cond string) {
-	if !e.propsMatch(props) {
+	if !e.propsMatch(props) || onlyFilter != "" {
 		return
 	}
 	o := &Obl{ID: len(e.obls), Name: e.rootName() + "/cover/" + name, Kind: "cover", Props: props, Check: true, IsCover: true}
@@ -642,6 +739,8 @@ type Frame struct {
 	loopOrd map[*ssa.BasicBlock]int
 	descN   map[string]int
 	entryGuard string
+	nonnil map[string][]*ssa.BasicBlock
+	inheritedNonNil map[string]bool
 }
 
 func sortBlocksRPO(fn *ssa.Function) ([]*ssa.BasicBlock, map[[2]int]bool) {
@@ -813,4 +912,53 @@ func splitSexp(s string) []string {
 		out = append(out, s[start:])
 	}
 	return out
+}
+
+// usedAsValueField: does any struct type of the package (or a type reachable from
+// its fields) contain a field whose type is the struct type t (by value)?
+func (e *Eng) usedAsValueField(t types.Type) bool {
+	if e.valueFieldTypes == nil {
+		e.valueFieldTypes = map[string]bool{}
+		seen := map[string]bool{}
+		var walk func(tt types.Type)
+		walk = func(tt types.Type) {
+			tt = types.Unalias(tt)
+			k := types.TypeString(tt, nil)
+			if seen[k] {
+				return
+			}
+			seen[k] = true
+			switch u := tt.Underlying().(type) {
+			case *types.Struct:
+				for i := 0; i < u.NumFields(); i++ {
+					ft := u.Field(i).Type()
+					if isStructValue(ft) {
+						e.valueFieldTypes[types.TypeString(types.Unalias(ft), nil)] = true
+					}
+					if a, ok := types.Unalias(ft).Underlying().(*types.Array); ok && isStructValue(a.Elem()) {
+						e.valueFieldTypes[types.TypeString(types.Unalias(a.Elem()), nil)] = true
+					}
+					walk(ft)
+				}
+			case *types.Pointer:
+				walk(u.Elem())
+			case *types.Slice:
+				walk(u.Elem())
+			case *types.Map:
+				walk(u.Key())
+				walk(u.Elem())
+			case *types.Array:
+				walk(u.Elem())
+			case *types.Chan:
+				walk(u.Elem())
+			}
+		}
+		sc := e.ld.pkg.Types.Scope()
+		for _, n := range sc.Names() {
+			if tn, ok := sc.Lookup(n).(*types.TypeName); ok {
+				walk(tn.Type())
+			}
+		}
+	}
+	return e.valueFieldTypes[types.TypeString(types.Unalias(t), nil)]
 }
